@@ -290,15 +290,15 @@ PLANS = {
                      G("roundtrip", 100, 2000, "TraceCursor", "TraceCursor.cfg", extra=["--wsched", "rand5"])]),
     "C02": dict(level="model_checking", assumptions=TRUST,
                 mc=[MC("MCBlock", "MCBlock.cfg", workers=8), MC("MCBytes", "MCBytes.cfg", workers=8)],
-                gen=[G("seeks", 96, 2000, "TraceCursor", "TraceCursor.cfg"),
+                gen=[G("seeks", 128, 2000, "TraceCursor", "TraceCursor.cfg"),
                      G("big", 6, 80, "TraceCursor", "TraceCursor.cfg")]),
     "C04": dict(level="model_checking", assumptions=TRUST,
                 mc=[MC("MCIter", "MCIter_quick.cfg", workers=4), MC("MCIter", "MCIter.cfg", workers=4, quick=False)],
-                gen=[G("ranges", 112, 3000, "TraceIter", "TraceIter.cfg")]),
+                gen=[G("ranges", 144, 3000, "TraceIter", "TraceIter.cfg")]),
     "C05": dict(level="model_checking", assumptions=TRUST,
                 mc=[MC("MCIter", "MCIter_quick.cfg", workers=4), MC("MCIter", "MCIter.cfg", workers=4, quick=False),
                     MC("MCBytes", "MCBytes.cfg", workers=8)],
-                gen=[G("prefixes", 112, 3000, "TraceIter", "TraceIter.cfg")]),
+                gen=[G("prefixes", 144, 3000, "TraceIter", "TraceIter.cfg")]),
     "C10": dict(level="model_checking", assumptions=TRUST + ["V1 files are built by replacing the V2 trailer of an index_levels=0 file with an independently encoded 21-byte V1 trailer"],
                 gen=[G("roundtrip_v1", 150, 5000, "TraceCursor", "TraceCursor.cfg"),
                      # the V1 trailer read in short pieces / with interruptions
